@@ -58,7 +58,12 @@ class VFuture:
 
     def add_done_callback(self, cb):
         if self.state in ("done", "cancelled"):
-            self._call(cb)
+            # concurrent.futures contract: the callback of an already finished future is called immediately, IN THE CALLING THREAD
+            self.pool.sync_callback = True
+            try:
+                self._call(cb)
+            finally:
+                self.pool.sync_callback = False
         else:
             self.cbs.append(cb)
 
@@ -110,6 +115,7 @@ class VExecPool:
         self.in_callback = []
         self.dead_workers = 0
         self.is_shutdown = False
+        self.sync_callback = False
         VExecPool.last = self
 
     def submit(self, fn, *args):
@@ -119,6 +125,16 @@ class VExecPool:
         self.queue.append(f)
         self.all.append(f)
         self._start_ready()
+        w = World.current
+        if w is not None:
+            k = w.submits
+            w.submits += 1
+            idx = getattr(args[1], "index", None) if len(args) > 1 else None
+            if k in w.eager and f.state == "running" and idx not in w.never and idx not in w.late:
+                # a free worker picked the task up and ran it to its end before the submitting thread continued (legal for concurrent.futures)
+                w.finished_order.append(f)
+                self.finish(f)
+                f.finished_eagerly = True
         return f
 
     def _start_ready(self):
@@ -173,13 +189,16 @@ class World:
 
     current = None
 
-    def __init__(self, choices=(), never=(), max_actions=40, preempt=(), late=()):
+    def __init__(self, choices=(), never=(), max_actions=40, preempt=(), late=(), eager=()):
         self.choices = list(choices)   # solver-chosen action whenever the current activity has ended and several are enabled
         self.ci = 0
         self.preempt = list(preempt)   # [(action number, index into enabled)]: solver-chosen preemptions of the running callback
         self.cur_cb = None
         self.never = set(never)        # branch indices that never finish
         self.late = set(late)          # branch indices that finish only when nothing else can happen (long-running user code)
+        self.eager = set(eager)        # ordinal numbers of submit() calls whose task has FINISHED before submit's caller gets to add_done_callback
+        self.submits = 0
+        self.timer_dead = None         # BaseException that killed the timer thread
         self.actions = 0
         self.max_actions = max_actions
         self.timer = None              # TimerScheduler instance
@@ -203,7 +222,7 @@ class World:
                 idx = getattr(f.args[1], "index", None) if len(f.args) > 1 else None
                 if idx not in self.never and idx not in self.late:
                     acts.append(("finish", f))
-        if self.timer is not None and self.timer._pending_resumes and not self.timer._shutdown.is_set():
+        if self.timer is not None and self.timer_dead is None and self.timer._pending_resumes and not self.timer._shutdown.is_set():
             acts.append(("timer", None))
         if not acts and pool is not None:
             for f in pool.running:
@@ -288,6 +307,14 @@ class World:
             except StopIteration:
                 self.timer_gen = None
                 break
+            except Deadlock:
+                raise
+            except BaseException as e:  # noqa: BLE001
+                if not (isinstance(e, Exception) or type(e).__module__.startswith("aws_durable_execution_sdk_python")):
+                    raise
+                self.timer_dead = e    # an exception leaving _timer_loop ends the timer thread; nobody is told
+                self.timer_gen = None
+                break
 
 
 class WEvent(sched.VEvent):
@@ -324,10 +351,20 @@ class _Threading:
     Thread = VThread
 
     class Lock:
+        """threading.Lock is NOT re-entrant: every critical section of the modelled code is atomic in this world (no yield point inside),
+        so the only way to find the lock held is the holder acquiring it again - which blocks that thread forever"""
+
+        def __init__(self):
+            self.held = False
+
         def __enter__(self):
+            if self.held:
+                raise Deadlock("a thread acquires a non-reentrant lock it already holds (blocks forever, and so does everybody who needs that lock later)")
+            self.held = True
             return self
 
         def __exit__(self, *a):
+            self.held = False
             return False
 
 
@@ -351,7 +388,13 @@ def install():
 
     def _deferred_on_task_complete(self, exe_state, future, scheduler):
         w = World.current
-        c = {"gen": self._co__on_task_complete(exe_state, future, scheduler), "future": future, "done": False}
+        gen = self._co__on_task_complete(exe_state, future, scheduler)
+        if getattr(future.pool, "sync_callback", False):
+            # called from add_done_callback on a finished future: runs to its end right here, on the caller's thread
+            for _ in gen:
+                pass
+            return
+        c = {"gen": gen, "future": future, "done": False}
         w.callbacks.append(c)
 
     E.ConcurrentExecutor._on_task_complete = _deferred_on_task_complete
